@@ -80,6 +80,76 @@ theorem shiftCount_panic (k : Int) (h : k < 0) : shiftCount k = Res.panic := by
   have : ¬ (0 ≤ k) := by omega
   simp only [this, if_false]
 
+/-! ## `clear(s)` / a zeroing `range` loop (the translator writes both as `GSlice.clear` / `Slice.clear`) -/
+
+@[simp] theorem gclear_len {α : Type} (z : α) (s : GSlice α) : (GSlice.clear z s).len = s.len := by
+  unfold GSlice.clear; rfl
+
+theorem gclear_arr_length {α : Type} (z : α) (s : GSlice α) (h : GWF s) :
+    (GSlice.clear z s).arr.length = s.arr.length := by
+  unfold GWF at h
+  unfold GSlice.clear
+  simp only [List.length_append, List.length_replicate, List.length_drop]
+  omega
+
+theorem gclear_cap {α : Type} (z : α) (s : GSlice α) (h : GWF s) : (GSlice.clear z s).cap = s.cap := by
+  unfold GSlice.cap; exact gclear_arr_length z s h
+
+theorem gclear_wf {α : Type} (z : α) (s : GSlice α) (h : GWF s) : GWF (GSlice.clear z s) := by
+  unfold GWF
+  rw [gclear_arr_length z s h, gclear_len]
+  exact h
+
+/-- the elements after `clear` -/
+theorem gclear_data {α : Type} (z : α) (s : GSlice α) (h : GWF s) :
+    (GSlice.clear z s).data = List.replicate s.len z := by
+  unfold GWF at h
+  unfold GSlice.data GSlice.clear
+  have hm : min s.len s.arr.length = s.len := by omega
+  simp only [hm]
+  rw [List.take_append_of_le_length (by simp only [List.length_replicate]; omega)]
+  simp only [List.take_replicate, Nat.min_self]
+
+/-- the part of the backing array behind the length is kept -/
+theorem gclear_drop {α : Type} (z : α) (s : GSlice α) (h : GWF s) :
+    (GSlice.clear z s).arr.drop s.len = s.arr.drop s.len := by
+  unfold GWF at h
+  unfold GSlice.clear
+  have hm : min s.len s.arr.length = s.len := by omega
+  simp only [hm]
+  rw [List.drop_append_of_le_length (by simp only [List.length_replicate]; omega)]
+  simp only [List.drop_replicate, Nat.sub_self, List.replicate_zero, List.nil_append]
+
+@[simp] theorem bclear_len (s : Slice) : (Slice.clear s).len = s.len := by
+  unfold Slice.clear; rfl
+
+theorem bclear_arr_length (s : Slice) (h : SWF s) : (Slice.clear s).arr.length = s.arr.length := by
+  unfold SWF at h
+  unfold Slice.clear
+  simp only [List.length_append, List.length_replicate, List.length_drop]
+  omega
+
+theorem bclear_wf (s : Slice) (h : SWF s) : SWF (Slice.clear s) := by
+  unfold SWF
+  rw [bclear_arr_length s h, bclear_len]
+  exact h
+
+theorem bclear_data (s : Slice) (h : SWF s) : (Slice.clear s).data = List.replicate s.len 0 := by
+  unfold SWF at h
+  unfold Slice.data Slice.clear
+  have hm : min s.len s.arr.length = s.len := by omega
+  simp only [hm]
+  rw [List.take_append_of_le_length (by simp only [List.length_replicate]; omega)]
+  simp only [List.take_replicate, Nat.min_self]
+
+theorem bclear_drop (s : Slice) (h : SWF s) : (Slice.clear s).arr.drop s.len = s.arr.drop s.len := by
+  unfold SWF at h
+  unfold Slice.clear
+  have hm : min s.len s.arr.length = s.len := by omega
+  simp only [hm]
+  rw [List.drop_append_of_le_length (by simp only [List.length_replicate]; omega)]
+  simp only [List.drop_replicate, Nat.sub_self, List.replicate_zero, List.nil_append]
+
 /-! ## the effect of a `range` loop that rewrites the elements in place -/
 
 /-- elements `i, i+1, …, i+n-1` of `l` are replaced, in this order, by their image under `f` -/
